@@ -15,6 +15,10 @@ pub trait ExBufRead: Read { type ExternalTraitSpecificationFor: BufRead; }
 
 pub uninterp spec fn wire<R: ?Sized>(r: &BufReader<R>) -> Seq<u8>;
 pub uninterp spec fn fault_free<R: ?Sized>(r: &BufReader<R>) -> bool;
+/// bytes written so far, in clear, on the stream under this BufReader (reading never changes it)
+pub uninterp spec fn wrote<R: ?Sized>(r: &BufReader<R>) -> Seq<u8>;
+/// opaque identity of the connection under this BufReader (reading never changes it)
+pub uninterp spec fn origin<R: ?Sized>(r: &BufReader<R>) -> int;
 
 pub mod sfx {
 use vstd::prelude::*;
@@ -76,6 +80,7 @@ pub assume_specification<R: Read + ?Sized>[ <BufReader<R> as Read>::read_exact ]
         is_suffix(wire(final(r)), wire(old(r))),
         fault_free(old(r)) ==> fault_free(final(r)),
         fault_free(old(r)) && old(buf)@.len() <= wire(old(r)).len() ==> res.is_ok(),
+        wrote(final(r)) == wrote(old(r)), origin(final(r)) == origin(old(r)),
 ;
 
 pub assume_specification<T: Ord>[std::cmp::min](a: T, b: T) -> (r: T)
@@ -107,6 +112,7 @@ pub fn vp_take_read_until<R: Read>(r: &mut BufReader<R>, n: u64, d: u8, b: &mut 
         res matches Ok(k) ==> k == until_len(wire(old(r)), n, d)
             && final(b)@ == old(b)@ + wire(old(r)).take(k as int)
             && wire(final(r)) == wire(old(r)).skip(k as int),
+        wrote(final(r)) == wrote(old(r)), origin(final(r)) == origin(old(r)),
 { r.take(n).read_until(d, b) }
 
 #[verifier::external_type_specification]
